@@ -42,14 +42,20 @@ M_get == <<"g","e","t">>
 M_post == <<"p","o","s","t">>
 M_delete == <<"d","e","l","e","t","e">>
 M_patch == <<"p","a","t","c","h">>
-Op(m, p, tags, id, d, shared) == [method |-> m, path |-> p, tags |-> tags, opid |-> id, depr |-> d, shared |-> shared]
-Ops == << Op(M_get,    T_u,   <<T_users>>,          T_listUsers,  "absent", FALSE),
-          Op(M_post,   T_u,   <<T_admin, T_users>>, T_createUser, "absent", FALSE),
-          Op(M_get,    T_uid, <<T_users>>,          T_getUser,    "false",  FALSE),
-          Op(M_delete, T_uid, << >>,                T_deleteUser, "true",   FALSE),
-          Op(M_patch,  T_uid, << >>,                << >>,        "absent", FALSE),
-          Op(M_get,    T_s1,  << >>,                << >>,        "absent", TRUE),
-          Op(M_get,    T_s2,  << >>,                << >>,        "absent", TRUE) >>
+(* the operation's own (query) parameters, each written in place or as a $ref to a reusable parameter object kept under     *)
+(* components (`#/components/parameters/..`, Swagger 2.0: `#/parameters/..`) - the usual layout of real-life documents        *)
+T_force == <<"f","o","r","c","e">>
+T_limit == <<"l","i","m","i","t">>
+Par(n, via) == [name |-> n, via |-> via]
+Op(m, p, tags, id, d, shared, params) ==
+  [method |-> m, path |-> p, tags |-> tags, opid |-> id, depr |-> d, shared |-> shared, params |-> params]
+Ops == << Op(M_get,    T_u,   <<T_users>>,          T_listUsers,  "absent", FALSE, <<Par(T_limit, "ref")>>),
+          Op(M_post,   T_u,   <<T_admin, T_users>>, T_createUser, "absent", FALSE, << >>),
+          Op(M_get,    T_uid, <<T_users>>,          T_getUser,    "false",  FALSE, <<Par(T_force, "inline")>>),
+          Op(M_delete, T_uid, << >>,                T_deleteUser, "true",   FALSE, <<Par(T_force, "ref")>>),
+          Op(M_patch,  T_uid, << >>,                << >>,        "absent", FALSE, <<Par(T_limit, "inline"), Par(T_force, "ref")>>),
+          Op(M_get,    T_s1,  << >>,                << >>,        "absent", TRUE,  << >>),
+          Op(M_get,    T_s2,  << >>,                << >>,        "absent", TRUE,  << >>) >>
 NOps == Len(Ops)
 (* links: source operation, target operation, how the target is referenced, and where the link is written: inline in the *)
 (* response, as a $ref to a reusable link object, or inside a response that is itself a $ref to a reusable response        *)
@@ -92,7 +98,9 @@ FilterDef ==
      {[by |-> "deprecated", how |-> "is", v |-> << >>, vs |-> << >>]},          \* 21  deprecated
      {V("method", <<"G","E","T">>), V("path", T_uid)},                          \* 22  conjunction of values
      {V("tag", T_users), R("method", "exact", <<"P","O","S","T">>)},            \* 23  conjunction value + regex
-     {E("eq_raw", P_opid, T_createUser)} >>                                     \* 24  /operationId == createUser  (value without quotes)
+     {E("eq_raw", P_opid, T_createUser)},                                       \* 24  /operationId == createUser  (value without quotes)
+     {E("eq_str", ParamPtr("0"), T_force)},                                     \* 25  /parameters/0/name == "force"  (inline or behind a $ref)
+     {E("eq_str", ParamPtr("1"), T_force)} >>                                   \* 26  /parameters/1/name == "force"
 NF == Len(FilterDef)
 FilterIds == 1..NF
 (* MatchTable[f][o]: verdict of catalogue filter f on operation o (constant, evaluated once) *)
@@ -158,8 +166,19 @@ Init == /\ door \in {"py", "cli", "lazy"}
         /\ incl = {} /\ excl = {}
 Bound(i, e) == IF door = "lazy" THEN Cardinality(i) + Cardinality(e) <= LazyTotal
                ELSE Cardinality(i) <= MaxIncl /\ Cardinality(e) <= MaxExcl /\ Cardinality(i) + Cardinality(e) <= MaxTotal
-(* expressions exist only on the command line; "deprecated" only as an exclusion (exclude(deprecated=True), --exclude-deprecated) *)
-DoorHas(f) == IsExprFilter(f) => door = "cli"
+(* expressions are a command-line feature; in the python API (eager and lazy) the same condition is a custom function given to  *)
+(* include() / exclude() that reads the operation's resolved definition - the family has those for the parameter pointers.       *)
+(* "deprecated" exists only as an exclusion (exclude(deprecated=True), --exclude-deprecated)                                     *)
+IsParamExpr(f) == IsExprFilter(f) /\ \A a \in FilterDef[f] : a.vs[1] \in {ParamPtr("0"), ParamPtr("1")}
+DoorHas(f) == IsExprFilter(f) => (door = "cli" \/ IsParamExpr(f))
+(* ThroughRef[f][o]: the verdict of filter f on operation o is read from a parameter object written as a $ref (a feature of the *)
+(* element for reports; the verdict itself does not depend on it)                                                                *)
+ThroughRef == [f \in FilterIds |-> [o \in 1..NOps |->
+                 \E a \in FilterDef[f] : a.by = "expr" /\ \E k \in 1..Len(Ops[o].params) :
+                     a.vs[1] = ParamPtr(<<"0","1">>[k]) /\ Ops[o].params[k].via = "ref"]]
+(* parameter pointers are used with `==` only: a Swagger 2.0 document writes the request body as one more parameter after them *)
+ASSUME \A f \in FilterIds : IsParamExpr(f) => \A a \in FilterDef[f] : a.how = "eq_str"
+ASSUME \A o \in 1..NOps : Len(Ops[o].params) <= 2
 Include(f) == /\ f \notin incl \cup excl             \* the API rejects a filter that already exists
               /\ DoorHas(f) /\ ~IsDeprFilter(f)
               /\ Bound(incl \cup {f}, excl)
@@ -196,7 +215,7 @@ ASSUME \A o \in 1..NOps : \E f \in FilterIds : MatchTable[f][o] = "T"
 SetToSeq(S) == LET RECURSIVE go(_) go(T) == IF T = {} THEN << >> ELSE LET x == CHOOSE y \in T : \A z \in T : y <= z IN <<x>> \o go(T \ {x}) IN go(S)
 Export ==
   /\ IF door = "py" /\ incl = {} /\ excl = {}
-     THEN PrintT(<<"CATALOGUE", ToJson([ops |-> Ops, links |-> Links, filters |-> FilterDef, match |-> MatchTable,
+     THEN PrintT(<<"CATALOGUE", ToJson([ops |-> Ops, links |-> Links, filters |-> FilterDef, match |-> MatchTable, throughref |-> ThroughRef,
                                          bases |-> [b \in 1..NBase |-> [incl |-> SetToSeq(BaseDef[b][1]), excl |-> SetToSeq(BaseDef[b][2])]]])>>)
      ELSE TRUE
   /\ PrintT(<<"CASE", ToJson([door |-> door, base |-> base, incl |-> SetToSeq(incl), excl |-> SetToSeq(excl),
